@@ -63,6 +63,16 @@ CHECKS = {
     technique='TLA+ spec CatalogIndex.tla (row masks, per-file compaction, ConcatTheorem) with TLC as oracle for (catalog, mask) pairs and single-file loads; real loads with filter_func and file lists compared',
     text='The exhaustive TLC run of C01 covers every row mask (layer A models per-file compaction and post-filter file offsets; the pre-filter-offset variant is rejected) and proves the concatenation theorem. For 40 (quick) / 300 (thorough) catalogs TLC computes expected tables for masks all / none / single rows dropped / random / one slab emptied, applied to the real loader as filter_func on id, plus a threshold on N that distinguishes N_total from N (cleaned rule); every ordered subset of the superslab files is loaded as a list and compared with the concatenation of TLC-computed single-file loads; invalid path sets must raise; light-cone catalogs are loaded with filters.',
     note='Same trusted base as C01.'),
+ 'C02': dict(
+    design='DESIGN.md §5 C02',
+    technique='TLA+ spec HaloFields.tla: TLC checks the field resolver as coded (normalisation, dependency closure, load order, temporary-column slot types, index columns) for every request sequence; every request replayed on the real loader and compared column-by-column with the fields=all load',
+    text='TLC evaluates the resolver model for every duplicate-free request sequence of <=2 (quick) / 3 (thorough) columns over a 15-column universe (one per dtype, shape and derivation class) x cleaned on/off x subsamples none/A/A+B: no request may fail, no requested column may be altered, dependencies load before dependants (the two original defects are rejected as controls). Every enumerated request (1107 quick / ~15k thorough) is loaded from a synthetic catalog: no exception, requested columns present, each bit-identical (dtype, shape, values) to the fields=all load, index columns present when subsamples are loaded; all/default/with-subsamples loads agree; the loader\'s dependency_info matches the model.',
+    note='Canonical value = the column in the fields=all load (its units are verified by C05). Passthrough excluded.'),
+ 'C05': dict(
+    design='DESIGN.md §5 C05',
+    technique='TLA+ spec HaloUnits.tla: column->unit-kind table and exact rational Value formulas with TLC-checked theorems (on/off factor, principal dispersions sum) and TLC-emitted expected values; synthetic catalogs carrying the sampled stored values loaded and compared',
+    text='TLC checks that the kind table classifies every column once, that on/off loads differ by exactly the unit factor of the kind, and the sum-of-squares identity of the principal dispersions, and emits Value for a grid of stored samples (raw n/64, int16 over its full range, reference r100/sigmav3d) x 4 (BoxSize, VelZSpace_to_kms) pairs with Box != Vel. Synthetic catalogs carrying exactly those stored values in every column are loaded with convert_units on/off x cleaned on/off and as a light-cone catalog; all 80+ columns are compared with Value (2e-6), the identity is checked on the loaded numbers, plain and cleaning columns must be unchanged.',
+    note='Transcription decisions (sigman = ratio to unit box; cleaning and light-cone columns Plain) are stated in DESIGN.md.'),
 }
 NA = [
  dict(property_id='C18', reason='Pure real-valued geometry (square roots, sines, cross products) on a fixed finite domain of 65 340 codes: no state, order, schedule or index structure for a TLA+ transition system, and orthonormality/coverage are floating-point facts outside TLC integer arithmetic; an exhaustive numeric sweep would be a different technique (DESIGN.md §7).'),
